@@ -188,7 +188,7 @@ fn other_root(slot: i64) -> i64 {
 #[cfg(not(aranya_verif_knobs))]
 const PREALLOC_CHUNK: i64 = 4 * 1024 * 1024;
 #[cfg(aranya_verif_knobs)]
-const PREALLOC_CHUNK: i64 = 8 * 1024;
+const PREALLOC_CHUNK: i64 = 1024;
 
 /// Size of the big-endian `u32` length prefix written before each
 /// serialized value. See [`File::dump_bytes`] and [`File::load`].
